@@ -22,8 +22,12 @@ func (s *Sx) String() string { return s.sb.String() }
 func (s *Sx) open(tag string) { s.sb.WriteString("(" + tag) }
 func (s *Sx) close()          { s.sb.WriteByte(')') }
 func (s *Sx) sp()             { s.sb.WriteByte(' ') }
-func (s *Sx) bytes(v string)  { s.sp(); s.sb.WriteByte('x'); s.sb.WriteString(hex.EncodeToString([]byte(v))) }
-func (s *Sx) int(v int)       { s.sp(); s.sb.WriteString(strconv.Itoa(v)) }
+func (s *Sx) bytes(v string) {
+	s.sp()
+	s.sb.WriteByte('x')
+	s.sb.WriteString(hex.EncodeToString([]byte(v)))
+}
+func (s *Sx) int(v int) { s.sp(); s.sb.WriteString(strconv.Itoa(v)) }
 func (s *Sx) bool(v bool) {
 	if v {
 		s.int(1)
@@ -292,7 +296,7 @@ func (s *Sx) SchemaDoc(d *ast.SchemaDocument) {
 	s.close()
 }
 
-func SexpQuery(d *ast.QueryDocument) string  { var s Sx; s.QueryDoc(d); return s.String() }
+func SexpQuery(d *ast.QueryDocument) string   { var s Sx; s.QueryDoc(d); return s.String() }
 func SexpSchema(d *ast.SchemaDocument) string { var s Sx; s.SchemaDoc(d); return s.String() }
 
 // LoadedSchema prints a loaded *ast.Schema (maps sorted by key; relation lists in stored order,
